@@ -13,6 +13,7 @@ type Val struct {
 	Typ  types.Type // Go type (nil for pure spec values)
 	Tup  []Val      // tuple components
 	Addr *Addr      // non-materialised address (pointer into a field/element)
+	MaybeElt bool   // a pointer term that may denote a slice element (Elt arr idx)
 }
 
 const (
@@ -262,10 +263,32 @@ func (fc *fnCtx) leafHeaps(t types.Type) []string {
 	return r
 }
 
+// materialize turns the address of a slice/array element into a Ref term (Elt arr idx).
+func (fc *fnCtx) materialize(v Val) (Val, bool) {
+	if v.Addr == nil {
+		return v, true
+	}
+	if v.Addr.Root == rootElem && len(v.Addr.Path) == 0 {
+		return Val{T: App("Elt", v.Addr.Key, v.Addr.Idx), Sort: "Ref", Typ: v.Typ, MaybeElt: true}, true
+	}
+	return v, false
+}
+
 // deref loads the value a pointer value points to.
 func (fc *fnCtx) deref(st *State, p Val) Val {
 	if p.Addr != nil {
 		return fc.loadAddr(st, p.Addr)
+	}
+	if p.MaybeElt {
+		et := p.Typ.Underlying().(*types.Pointer).Elem()
+		elt := Select(Select(fc.H(st, fc.elemHeap(et)), App("earr", p.T)), App("eidx", p.T))
+		var other string
+		if isStruct(et) {
+			other = fc.loadStruct(st, p.T, et)
+		} else {
+			other = Select(fc.H(st, fc.cellHeap(et)), p.T)
+		}
+		return Val{T: Ite("((_ is Elt) "+p.T+")", elt, other), Sort: fc.so.sortOf(et), Typ: et}
 	}
 	pt, ok := p.Typ.Underlying().(*types.Pointer)
 	if !ok {
@@ -286,6 +309,24 @@ func (fc *fnCtx) storeThrough(st *State, p Val, v string) {
 		fc.storeAddr(st, p.Addr, v)
 		return
 	}
+	if p.MaybeElt {
+		et := p.Typ.Underlying().(*types.Pointer).Elem()
+		isElt := "((_ is Elt) " + p.T + ")"
+		h := fc.elemHeap(et)
+		H := fc.H(st, h)
+		// element case
+		st2 := st.clone()
+		p2 := p
+		p2.MaybeElt = false
+		fc.storeThrough(st2, p2, v) // object case (heap-decomposed struct or cell)
+		for name, t := range st2.heap {
+			if st.heap[name] != t {
+				fc.setH(st, name, Ite(isElt, fc.H(st, name), t))
+			}
+		}
+		fc.setH(st, h, Ite(isElt, Store(H, App("earr", p.T), Store(Select(H, App("earr", p.T)), App("eidx", p.T), v)), fc.H(st, h)))
+		return
+	}
 	pt := p.Typ.Underlying().(*types.Pointer)
 	et := pt.Elem()
 	switch u := et.Underlying().(type) {
@@ -303,6 +344,9 @@ func (fc *fnCtx) storeThrough(st *State, p Val, v string) {
 
 // fieldAddr computes &x.f for pointer-to-struct x.
 func (fc *fnCtx) fieldAddr(x Val, structT types.Type, i int) Val {
+	if x.MaybeElt {
+		bail("field access through a pointer that may address a slice element")
+	}
 	si := fc.so.structOf(structT)
 	ft := si.st.Field(i).Type()
 	pt := types.NewPointer(ft)
@@ -334,13 +378,13 @@ func (fc *fnCtx) indexAddrArr(x Val, arr *types.Array, idx string) Val {
 }
 
 func (fc *fnCtx) indexAddrSlice(s Val, elem types.Type, idx string) Val {
-	a := &Addr{Root: rootElem, Heap: fc.elemHeap(elem), Key: App("sarr", s.T), Idx: App("+", App("soff", s.T), idx), RootType: elem, Typ: elem}
+	a := &Addr{Root: rootElem, Heap: fc.elemHeap(elem), Key: App("sarr", s.T), Idx: App("at", App("soff", s.T), idx), RootType: elem, Typ: elem}
 	return Val{Typ: types.NewPointer(elem), Sort: "Ref", Addr: a}
 }
 
 // sliceElem reads s[i].
 func (fc *fnCtx) sliceElem(st *State, s string, elem types.Type, idx string) string {
-	return Select(Select(fc.H(st, fc.elemHeap(elem)), App("sarr", s)), App("+", App("soff", s), idx))
+	return Select(Select(fc.H(st, fc.elemHeap(elem)), App("sarr", s)), App("at", App("soff", s), idx))
 }
 
 // newRef allocates a fresh reference.
